@@ -93,7 +93,13 @@ def run(ctx):
         tf = os.path.join(root, 'train.txt')
         # the list in the `sort | uniq -c` layout (trainer --prefixcount): right-aligned counter, one space, the password - which may
         # itself begin with spaces
-        counted = (i == 2) or (i > 4 and rng.random() < 0.25)
+        counted = (i == 2) or (i > 6 and rng.random() < 0.25)
+        if i == 5:
+            # whatever the seed: one password (twice) and a coverage for which the rescaled probability of its only structure rounds to
+            # just above 1 under skip_brute (0.3 / (1.0 - 0.7)): the only guess there is has to come
+            pws, cov, ngram, enc = ['PaSSword#1', 'PaSSword#1'], 0.3, 4, 'utf-8'
+        if i == 6:
+            pws, cov, ngram, enc = ['Z\xfcrich2019!'] * 7, 0.6, 4, 'utf-8'
         if i in (2, 4):
             # whatever the seed (and small enough to be enumerated in full): passwords that begin with spaces, a keyboard walk at the
             # end of a password behind exactly one other character, double quotes inside and at the end of a terminal, a comma
